@@ -296,6 +296,34 @@ def c10_4(ctx):
         for nm, tp, what in (("der-trailing-after-sequence", outer, "sigdecode_der(strict): bytes after the end of the SEQUENCE (sig + b'\\x00')"),
                              ("der-trailing-inside-sequence", inner, "sigdecode_der(strict): bytes after the second INTEGER inside the SEQUENCE")):
             sym.must_refuse(ctx, ws, nm, ctx.where(sd), what, lambda a, tp=tp: a.startswith("truthy(") and tp(a[7:-1]), tp, assume=strict)
+    # a DER INTEGER is two's complement: the 00 pad byte is there exactly when the first magnitude byte has its top bit set
+    # (0x80..0xff), as a value set of that byte
+    ei = ctx.func(DER, "encode_integer")
+    we0 = sym.walk(ctx, ei)
+    import re as _re
+    firsts = set()
+    for a_ in sym.all_atoms(we0):
+        m_ = _re.match(r"^\d+ < (.+\[0\])$", a_) or _re.match(r"^(.+\[0\]) < \d+$", a_) or _re.match(r"^bit\((.+\[0\]), 7\)$", a_)
+        if m_:
+            firsts.add(m_.group(1))
+    if not firsts:
+        ctx.undecided("der-pad-iff-top-bit", ctx.where(ei), "encode_integer: no test of the first magnitude byte found in a form this rule reads")
+    else:
+        wE = sym.int_walk(ctx, ei, firsts)
+        padded = [e for e in wE.exits if e.kind == "return" and e.value is not None and _re.search(r"b'\\x00' \+", norm(e.value))]
+        plain = [e for e in wE.exits if e.kind == "return" and e.value is not None and not _re.search(r"b'\\x00' \+", norm(e.value))]
+        if not padded or not plain:
+            ctx.undecided("der-pad-iff-top-bit", ctx.where(ei), "encode_integer: padded and unpadded results not told apart by this rule")
+        else:
+            byte = iv(0, 255)
+            sp = E
+            for e in padded:
+                sp = sp | (sym.may_set(e.cond, U, E) & byte)
+            sn = E
+            for e in plain:
+                sn = sn | (sym.may_set(e.cond, U, E) & byte)
+            ctx.check(sp == iv(128, 255) and sn == iv(0, 127), "der-pad-iff-top-bit", ctx.where(ei), "encode_integer pads for first bytes %s and does not pad for %s; DER needs the 00 pad exactly for 128..255 (0x80 without the pad reads as a negative number: not strict DER)" % (sp.fmt(), sn.fmt()),
+                      sample={"pads_for_first_byte": sp.fmt(), "no_pad_for": sn.fmt()})
     # the encoder writes the two integers it was given: sigdecode_der(sigencode_der(r, s)) is (r, s) for EVERY pair (a canonical
     # low-S form is the signer's business -- C05.2 -- not the codec's)
     se = ctx.func(DER, "sigencode_der")
